@@ -267,6 +267,19 @@ func init() {
 			fmt.Fprintf(out, "%s => %d %d %s\n", h, len(allErrors(r.err)), first, dumpNode(r.nodes[0], posExact, 0))
 		})
 	}
+	// type-sql: "hex => <hex of SQL() of the returned type>" for inputs accepted without error, "hex => ERR" otherwise
+	commands["type-sql"] = func(args []string) {
+		e := entryByName("ParseType")
+		stdinLines(func(line string) {
+			h := strings.TrimSpace(line)
+			r := callEntry(e, "", unhx(h))
+			if r.panicked || r.err != nil {
+				fmt.Fprintf(out, "%s => ERR\n", h)
+				return
+			}
+			fmt.Fprintf(out, "%s => %s\n", h, hx(r.nodes[0].SQL()))
+		})
+	}
 	// type-go-all: "hex => <number of errors> [<position of every error>] <number of Bad nodes> <dump of the returned type>"
 	commands["type-go-all"] = func(args []string) {
 		e := entryByName("ParseType")
